@@ -172,6 +172,28 @@ pub fn build(id: &str, tier: &str, seed: u64, threads: usize) -> Option<Plan> {
             for (b, _) in &make_bases(&content_cfgs(Role::Send, q), seed, threads) {
                 fam_content(b, b.spec.nblocks() <= 10, &mut cases);
             }
+            // duplicate-packets mode with windows of more than 64 / 128 blocks: every copy must carry its own block's slice
+            // (every extra copy costs a real millisecond)
+            {
+                let dup_cfgs: Vec<Cfg> = [(65u16, 140u64), (128, 300), (200, 450)].iter().map(|&(w, n)| Cfg { role: Role::Send, b: 8, w, len: (n - 1) * 8 + 3, hs: false, every: 0 }).collect();
+                for (b, _) in &make_bases(&dup_cfgs, seed, threads) {
+                    let mut v = vec![b.spec.clone()];
+                    fam_random(b, &mut rng, 2, 3, &mut v);
+                    // the first transmission of an early block of the second window and its extra copy are both lost
+                    let w = b.spec.w as u64;
+                    v.push({
+                        let mut s = b.spec.clone();
+                        s.label = format!("duploss:{}", s.label);
+                        s.rules.push(Rule::DropFirst { dir: Dir::W2P, is_data: true, abs: w + 4, count: 2 });
+                        s
+                    });
+                    set_repeat(&mut v, 2);
+                    for c in v.iter_mut() {
+                        c.peer.quiet_dups = true;
+                    }
+                    cases.extend(v);
+                }
+            }
             Some(Plan {
                 cases,
                 judge: judge_rules(&["CONTENT", "BEYOND_FINAL", "E2E", "ENDED_EARLY"]),
@@ -548,6 +570,14 @@ pub fn build(id: &str, tier: &str, seed: u64, threads: usize) -> Option<Plan> {
                 let mut s = base_spec(&Cfg { role: Role::Recv, b: 8, w, len: (n - 1) * 8 + 3, hs: false, every: 0 }, seed);
                 s.repeat = 2;
                 s.label = format!("wrapdup:R:n{n}:w{w}:N1");
+                cases.push(s);
+            }
+            // one burst of 65536 datagrams (32768 blocks x 2 copies): about 33 s of real inter-copy sleeps
+            {
+                let mut s = base_spec(&Cfg { role: Role::Send, b: 8, w: 32768, len: 32768 * 8 + 3, hs: false, every: 0 }, seed);
+                s.repeat = 2;
+                s.peer.quiet_dups = true;
+                s.label = "bigburst:S:n32769:w32768:N1".to_string();
                 cases.push(s);
             }
             // N = 254: real 1 ms sleeps between copies, keep to <= 3 blocks
